@@ -67,6 +67,42 @@ fn catalogue(seed: u64, tier: &str) -> Vec<Value> {
             v.push(json!({"op": "msm", "g": g, "fn": "default", "points": pts.to_vec(), "scalars": good.clone(), "cls": "after-aborting-call"}));
         }
     }
+    // one entry point, inputs with different verdicts next to each other: for every encoding a valid
+    // point, a curve point outside the subgroup, a second valid point, a string without curve point
+    {
+        use pairing::bls12_381::{G1, G2};
+        use pairing::{CurveAffine, CurveProjective, EncodedPoint};
+        let mut rng = xs(seed ^ 0x2121);
+        let mut rr = Rng(seed ^ 0x2121);
+        let mut add = |g: &str, form: &str, b: Vec<u8>, cls: &str| {
+            v.push(json!({"op": "decode", "g": g, "form": form, "bytes": bytes_to_j(&b), "cls": cls}));
+        };
+        for form in ["c", "u"].iter() {
+            for k in 0..2 {
+                let (a1, f1) = (G1::random(&mut rng).into_affine(), full_order_point::<G1>(&mut rr));
+                let (a2, f2) = (G2::random(&mut rng).into_affine(), full_order_point::<G2>(&mut rr));
+                if *form == "c" {
+                    add("G1", form, a1.into_compressed().as_ref().to_vec(), "verdicts-valid");
+                    add("G1", form, f1.into_compressed().as_ref().to_vec(), "verdicts-outside-subgroup");
+                    add("G2", form, a2.into_compressed().as_ref().to_vec(), "verdicts-valid");
+                    add("G2", form, f2.into_compressed().as_ref().to_vec(), "verdicts-outside-subgroup");
+                } else {
+                    add("G1", form, a1.into_uncompressed().as_ref().to_vec(), "verdicts-valid");
+                    add("G1", form, f1.into_uncompressed().as_ref().to_vec(), "verdicts-outside-subgroup");
+                    add("G2", form, a2.into_uncompressed().as_ref().to_vec(), "verdicts-valid");
+                    add("G2", form, f2.into_uncompressed().as_ref().to_vec(), "verdicts-outside-subgroup");
+                }
+                if k == 0 {
+                    let mut b = a1.into_uncompressed().as_ref().to_vec();
+                    b[95] ^= 1;
+                    if *form == "u" { add("G1", form, b, "verdicts-not-on-curve"); }
+                    let mut b = a2.into_uncompressed().as_ref().to_vec();
+                    b[191] ^= 1;
+                    if *form == "u" { add("G2", form, b, "verdicts-not-on-curve"); }
+                }
+            }
+        }
+    }
     // instances that share part of their input (same message and tag, other expander / field / suite)
     for sess in generate("c13", seed, "quick").into_iter().chain(generate("c06", seed, "quick").into_iter()) {
         for op in sess {
@@ -124,7 +160,7 @@ pub fn run(seed: u64, tier: &str, out: &str) {
         }));
     }
     {
-        refs.push(json!({"op": "pairl", "fn": "miller", "as": las, "bs": lbs, "cls": "shared-prepared"}));
+        refs.push(json!({"op": "pairl", "fn": "miller", "as": las, "bs": lbs, "plain": true, "cls": "shared-prepared"}));
         let (ppr, qqr, psr, qsr) = (&pp, &qq, &ps, &qs);
         insts.push(Box::new(move || {
             let pairs: Vec<_> = ppr.iter().zip(qqr.iter()).collect();
@@ -171,14 +207,41 @@ pub fn run(seed: u64, tier: &str, out: &str) {
             emit(&json!({"op": "ret", "t": 0, "seq": seq0, "inst": i, "val": insts[i](), "panic": false, "cls": "sequential-permuted"}));
         }
     }
+    // (4) order of the lock-step phase: instances grouped by entry point (operation, group, function,
+    // form, type), each group walked through twice, so that neighbouring steps hit the same code with
+    // different inputs; at every step ALL threads execute the same instance at the same moment
+    let sync_order: Vec<usize> = {
+        let key = |op: &Value| format!("{}|{}|{}|{}|{}|{}", op["op"], op["g"], op["fn"], op["form"], op["f"], op["x"]);
+        let mut groups: Vec<(String, Vec<usize>)> = vec![];
+        for (i, op) in refs.iter().enumerate() {
+            if op.get("xabort").is_some() {
+                continue;
+            }
+            let k = key(op);
+            match groups.iter_mut().find(|(kk, _)| *kk == k) {
+                Some((_, v)) => v.push(i),
+                None => groups.push((k, vec![i])),
+            }
+        }
+        let mut o = vec![];
+        for (_, g) in groups.iter() {
+            for _ in 0..(if thorough { 3 } else { 2 }) {
+                o.extend_from_slice(g);
+            }
+        }
+        o
+    };
     // (3) concurrent: every thread its own permutation, several rounds
     let threads = 16;
+    let barrier = std::sync::Barrier::new(threads);
     let rounds = if thorough { 12 } else { 4 };
     let seeds: Vec<u64> = (0..threads).map(|_| r.next()).collect();
     std::thread::scope(|s| {
         for t in 0..threads {
             let insts = &insts;
             let emit = &emit;
+            let barrier = &barrier;
+            let sync_order = &sync_order;
             let sd = seeds[t];
             s.spawn(move || {
                 let mut rr = Rng(sd);
@@ -197,6 +260,15 @@ pub fn run(seed: u64, tier: &str, out: &str) {
                         seq += 1;
                         emit(&json!({"op": "ret", "t": t + 1, "seq": seq, "inst": i, "val": val.0, "panic": val.1, "cls": "concurrent"}));
                     }
+                }
+                for &i in sync_order.iter() {
+                    barrier.wait();
+                    let val = match std::panic::catch_unwind(std::panic::AssertUnwindSafe(|| insts[i]())) {
+                        Ok(v) => (v, false),
+                        Err(_) => (json!("panic"), true),
+                    };
+                    seq += 1;
+                    emit(&json!({"op": "ret", "t": t + 1, "seq": seq, "inst": i, "val": val.0, "panic": val.1, "cls": "concurrent-lock-step"}));
                 }
             });
         }
